@@ -23,7 +23,8 @@ RULE = ("schemas of the C01 family with handler attributes on a random "
         "case-variant duplicates.  Non-trivial = at least one handler "
         "entry expected; distinct_nontrivial = distinct (number of "
         "entries, distinct names, nesting of the contributing sections, map "
-        "kind) signatures.")
+        "kind) signatures."
+        " Also: incomplete maps padded with stale names, maps with names differing in '_' / '-' / '.', a schema loaded with a registry whose basic-key differs, and the previous load's handler called after the kept loader's next load.")
 LEVEL_TEXT = ("For every accepted pair the real composite handler is called "
               "with recording callables under five kinds of maps; the "
               "recorded trace must equal the reference order, each value "
